@@ -1,6 +1,7 @@
 /-
   Heap-level model of pipeline RUNS, in which object identity, aliasing and in-place mutation
-  are observable (C12: runs are independent; a run never alters shared definitions/config).
+  are observable (C12: runs are independent; a run never alters shared definitions/config; the
+  object-level part of C11: what a child pipeline with a context of its own can do to its parent).
 
   An object of the Python program is one `Cell`; `id(obj)` is its `Ref`. A `Ref` is an address
   `(region, index)`: every region has its own arena (address space), so an allocation made by
@@ -12,18 +13,25 @@
     * `config`  – `config.vars` (cell 0) and `config.shortcuts` (process-wide configuration);
     * `run r`   – everything run `r` allocates; cell 0 is run r's `Context` object (its root).
 
-  `Cell := leaf v | list refs | dict [(key, ref)]`.  A `leaf` is an immutable atom (None, bool,
-  int, float, str, bytes): it has no outgoing references and no operation writes to it.  Python
-  shares atoms between a deep copy and its original; because atoms cannot be mutated that sharing
-  is unobservable, and the model gives every copy its own leaf cells.  Python `set`s are `list`
-  cells here (the harness canonicalises the order).
+  `Cell := leaf v | list refs | tuple refs | set refs | dict [(key, ref)] | obj class [(attr, ref)]`
+  (see `CellOf`).  A `leaf` is an immutable atom (None, bool, int, float, str, bytes): it has no
+  outgoing references and no operation writes to it.  Python shares atoms between a deep copy and its
+  original; because atoms cannot be mutated that sharing is unobservable, and the model gives every
+  copy its own leaf cells.  A `tuple` is an immutable container, `obj` an opaque mutable object that
+  formatting hands back by reference.
 
   The operation language mirrors what the code does to OBJECTS (names of the mirrored Python
   in the doc comment of each constructor of `Op`).  Every operation is ONE batch of allocations in
   the running run's own arena plus AT MOST ONE in-place write to an existing cell, the cell reached
   by following a path from the run's context root (`effect` computes that, `apply` performs it).
   An operation whose Python counterpart raises before touching anything (missing key, wrong
-  kind of object on the path) leaves the heap unchanged.
+  kind of object on the path) has NO effect (`effect … = none`), and the exception ENDS THE RUN: `step`
+  marks the run as dead and every later operation of that run in the schedule is skipped (`State`).
+
+  On top of the operations: `Instr` / `opsOf` – the object-level READING of the step kinds the
+  harness generates, as a function of the step's configuration and the heap at the moment the step
+  starts (which operations `pypyr.steps.append` performs depends on whether `context.get(list)` is
+  truthy, `Context.merge` walks the current value, …); `KSched` = schedules at STEP granularity.
 
   No imports beyond `Val`: the driver links this file.
 -/
@@ -47,17 +55,55 @@ structure Ref where
   idx : Nat
   deriving DecidableEq, Repr, Inhabited
 
-inductive Cell where
+/-- One object.  `ρ` is what a reference is: an address (`Cell`) or a position inside a block of
+    objects that is about to be allocated (`BCell`).
+
+    * `leaf`  – immutable atom (None, bool, int, float, str, bytes, date…): no outgoing references,
+                no operation writes to it;
+    * `list` / `set` / `dict` – the mutable containers (`append`/`extend`, `add`, `__setitem__`);
+    * `tuple` – IMMUTABLE container: it has outgoing references (and can be read through by index) but no
+                operation writes to it (`frozenset` is a tuple cell too);
+    * `obj`   – an opaque MUTABLE object that is not one of the containers formatting iterates: a
+                `bytearray` (class `bytearray`, its content under the attribute `data`), an instance of a
+                user class with attributes.  `copy.deepcopy` copies it, FORMATTING RETURNS IT AS IT IS
+                (`_get_formatted_iterable`: "any other type of object: returns it as is"); `setattr` /
+                `bytearray.extend` write to it (`Op.attrSetAt`).  Paths do not lead through attributes. -/
+inductive CellOf (ρ : Type) where
   | leaf (v : Val)
-  | list (rs : List Ref)
-  | dict (kvs : List (String × Ref))
+  | list (rs : List ρ)
+  | tuple (rs : List ρ)
+  | set (rs : List ρ)
+  | dict (kvs : List (String × ρ))
+  | obj (cls : String) (attrs : List (String × ρ))
   deriving DecidableEq, Repr, Inhabited
 
+abbrev Cell := CellOf Ref
+
 /-- Outgoing references of an object. -/
-def Cell.refs : Cell → List Ref
+def CellOf.refs {ρ : Type} : CellOf ρ → List ρ
   | .leaf _ => []
   | .list rs => rs
+  | .tuple rs => rs
+  | .set rs => rs
   | .dict kvs => kvs.map (·.2)
+  | .obj _ attrs => attrs.map (·.2)
+
+/-- The same object with every outgoing reference replaced. -/
+def CellOf.mapRefs {ρ σ : Type} (f : ρ → σ) : CellOf ρ → CellOf σ
+  | .leaf v => .leaf v
+  | .list rs => .list (rs.map f)
+  | .tuple rs => .tuple (rs.map f)
+  | .set rs => .set (rs.map f)
+  | .dict kvs => .dict (kvs.map fun kv => (kv.1, f kv.2))
+  | .obj cls attrs => .obj cls (attrs.map fun kv => (kv.1, f kv.2))
+
+def CellOf.isObj {ρ : Type} : CellOf ρ → Bool
+  | .obj _ _ => true
+  | _ => false
+
+def CellOf.isLeaf {ρ : Type} : CellOf ρ → Bool
+  | .leaf _ => true
+  | _ => false
 
 abbrev Arena := List Cell
 
@@ -107,20 +153,14 @@ def kvUpdate (kvs add : List (String × Ref)) : List (String × Ref) :=
 
 /-- One object of a value that is about to be allocated; references are positions inside the
     block it belongs to. -/
-inductive BCell where
-  | leaf (v : Val)
-  | list (js : List Nat)
-  | dict (kjs : List (String × Nat))
-  deriving DecidableEq, Repr, Inhabited
+abbrev BCell := CellOf Nat
 
 /-- A fresh value (the result of formatting, of `json`/yaml parsing, of a literal in `py` code,
     the `dict_in` of a run): a closed group of new objects, object 0 is the value itself. -/
 abbrev Block := List BCell
 
-def BCell.toCell (reg : Region) (base : Nat) : BCell → Cell
-  | .leaf v => .leaf v
-  | .list js => .list (js.map fun j => ⟨reg, base + j⟩)
-  | .dict kjs => .dict (kjs.map fun kj => (kj.1, ⟨reg, base + kj.2⟩))
+def BCell.toCell (reg : Region) (base : Nat) (b : BCell) : Cell :=
+  b.mapRefs fun j => ⟨reg, base + j⟩
 
 def Block.relocate (b : Block) (reg : Region) (base : Nat) : List Cell :=
   b.map (BCell.toCell reg base)
@@ -137,13 +177,12 @@ def relocAll (reg : Region) (base : Nat) : List Block → List Cell × List Ref
 def shiftRef (src dst : Region) (base : Nat) (x : Ref) : Ref :=
   if x.reg = src then ⟨dst, base + x.idx⟩ else x
 
-def Cell.shift (src dst : Region) (base : Nat) : Cell → Cell
-  | .leaf v => .leaf v
-  | .list rs => .list (rs.map (shiftRef src dst base))
-  | .dict kvs => .dict (kvs.map fun kv => (kv.1, shiftRef src dst base kv.2))
+def Cell.shift (src dst : Region) (base : Nat) (c : Cell) : Cell :=
+  c.mapRefs (shiftRef src dst base)
 
-/-- `copy.deepcopy(obj)` for an object of the shared region `src`: deepcopy copies the object graph
-    reachable from `obj`, keeping sharing and cycles (its `memo`).  The model copies the WHOLE arena
+/-- `copy.deepcopy(obj)` for an object of the region `src`: deepcopy copies the object graph
+    reachable from `obj`, keeping sharing and cycles (its `memo`); `obj` cells are copied too
+    (`__deepcopy__` / `__reduce_ex__`).  The model copies the WHOLE arena
     of `src` to addresses `base…` of `dst` (a superset of the reachable graph with exactly the same
     sharing; the surplus objects are unreachable from the copy and therefore unobservable).  The copy
     of the object at `⟨src, i⟩` is `⟨dst, base + i⟩`. -/
@@ -157,19 +196,26 @@ def copyArena (h : Heap) (src dst : Region) (base : Nat) : List Cell :=
     (`obj.__class__(formatted children…)`: a new object in the run's arena) or RETURNS IT AS IT IS (the
     very same object).  `keep` = the objects (indices in `src`'s arena) that are returned as they are.
     The code as it is: strings without `{` and all other non-container leaves are returned as they
-    are, EVERY container - also an empty one - is rebuilt.  Leaves are immutable atoms here, a leaf
-    handed back as it is cannot be told from a copy, and like `deepcopy`'s the model gives the result
-    its own leaf cells: so the code as it is has `keep = []`; a `keep` that names a container is a
-    formatter that hands a shared container to the run by reference. -/
+    are, EVERY container (list, tuple, set, dict) - also an empty one - is rebuilt, an `obj` (anything
+    that is not one of these containers) is returned as it is: `objIdx`.  Leaves are immutable atoms
+    here, a leaf handed back as it is cannot be told from a copy, and like `deepcopy`'s the model gives
+    the result its own leaf cells.  A `keep` that names a container is a formatter that hands a
+    container of `src` to the run by reference. -/
 def shiftKeep (keep : List Nat) (src dst : Region) (base : Nat) (x : Ref) : Ref :=
   if x.reg = src && keep.contains x.idx then x else shiftRef src dst base x
 
-def Cell.shiftKeep (keep : List Nat) (src dst : Region) (base : Nat) : Cell → Cell
-  | .leaf v => .leaf v
-  | .list rs => .list (rs.map (RunHeap.shiftKeep keep src dst base))
-  | .dict kvs => .dict (kvs.map fun kv => (kv.1, RunHeap.shiftKeep keep src dst base kv.2))
+def Cell.shiftKeep (keep : List Nat) (src dst : Region) (base : Nat) (c : Cell) : Cell :=
+  c.mapRefs (RunHeap.shiftKeep keep src dst base)
 
-/-- The formatted copy of the object graph of the shared region `src` (brace-free values, so
+/-- The positions of the opaque objects (`obj` cells) of an arena, counted from `i`. -/
+def objIdxFrom (i : Nat) : Arena → List Nat
+  | [] => []
+  | c :: rest => if c.isObj then i :: objIdxFrom (i + 1) rest else objIdxFrom (i + 1) rest
+
+/-- The objects of region `src` the formatter AS IT IS returns by reference: every `obj` cell. -/
+def objIdx (h : Heap) (src : Region) : List Nat := objIdxFrom 0 (h.arena src)
+
+/-- The formatted copy of the object graph of the region `src` (brace-free values, so
     formatting changes no leaf), at addresses `base…` of `dst`; as for `copyArena` the whole arena is
     rebuilt - a superset of the graph reachable from the formatted object, with the same sharing.
     The formatted value of the object at `⟨src, i⟩` is `shiftKeep keep src dst base ⟨src, i⟩`. -/
@@ -189,6 +235,7 @@ def Cell.follow (c : Cell) (s : Seg) : Option Ref :=
   match c, s with
   | .dict kvs, .key k => kvGet? kvs k
   | .list rs, .idx i => rs[i]?
+  | .tuple rs, .idx i => rs[i]?
   | _, _ => none
 
 /-- `context['a']['b'][0]…`: follow a path of dict keys / list indices from the object `a`. -/
@@ -229,11 +276,13 @@ inductive Op where
   /-- `pypyr.steps.append` with `unpack`, `Context.merge` on an existing list
       (`current[k].extend(formatted)`): in-place extension of the list cell at `path`. -/
   | extendAt (path : Path) (vs : List Block)
-  /-- `pypyr.steps.add`: `the_set.add(v)` (set modelled as a list cell; an atom already present
-      is not added again). -/
+  /-- `pypyr.steps.add`: `the_set.add(v)` on the `set` cell at `path` (an atom already present is not
+      added again). -/
   | addAt (path : Path) (v : Block)
   /-- `Context.merge` / `set_defaults` into an existing nested dict, `d['k'] = v` in `py` code. -/
   | dictSetAt (path : Path) (k : String) (v : Block)
+  /-- `setattr(obj, k, v)` / `bytearray.extend` (attribute `data`) on the opaque object at `path`. -/
+  | attrSetAt (path : Path) (k : String) (v : Block)
   /-- `pypyr.steps.contextcopy` (`context[dst] = context[src]`), `set` with `'{src:ff}'`:
       binds the SAME object under another key – aliasing inside the run's own region. -/
   | copyKey (src dst : String)
@@ -245,16 +294,27 @@ inductive Op where
       `context['i'] = item`: `path = []`, `k = "i"`, `src` = the item in the definition),
       `Step.save_error` (`failure['customError'] = context.get_formatted_value(self.on_error)`, kept
       under `context['runErrors'][n]`).  `d[k] = formatted(src)` for the dict `d` at `path`; `keep`:
-      the objects the formatter hands back as they are instead of rebuilding them (see `shiftKeep`;
-      `[]` for the code as it is). -/
+      the CONTAINERS the formatter hands back as they are instead of rebuilding them (see `shiftKeep`;
+      `[]` for the code as it is); the opaque objects of the region (`objIdx`) are always handed back. -/
   | fmtSetAt (path : Path) (k : String) (src : Ref) (keep : List Nat)
+  /-- A value of ANOTHER RUN's context, formatted and stored in this run: the two directions of
+      `pypyr.steps.pype` with a context of its own.  `d[k] = f(context_of_run_src[sp…])` for the dict `d`
+      at `path` of this run.  `byRef = true`: `'{key:ff}'` – flat formatting returns THE OBJECT ITSELF (an
+      atom: indistinguishable from a copy, the model allocates a leaf); `byRef = false`: `'{key}'` as a
+      single expression, `Context.get_formatted(key)` in `write_child_context_to_parent` – the object is
+      formatted again: containers are rebuilt (with sharing), opaque objects handed back by reference. -/
+  | fmtFrom (src : Nat) (sp : Path) (path : Path) (k : String) (byRef : Bool)
+  /-- A step body that raises (`raise …` in `py` code, any step function that fails). -/
+  | fail
   deriving Repr, Inhabited
 
-/-- The operation language of the code as it is now (no aliasing of shared objects). -/
+/-- The operation language of the code as it is now FOR ONE RUN ON ITS OWN (no aliasing of shared
+    objects, nothing read from another run's region). -/
 def Op.fixed : Op → Bool
   | .inAlias _ _ => false
   | .configvarsAlias => false
   | .fmtSetAt _ _ _ keep => keep.isEmpty
+  | .fmtFrom _ _ _ _ _ => false
   | _ => true
 
 /-- What one operation does: new objects for the run's own arena, at most one in-place write. -/
@@ -262,7 +322,7 @@ structure Effect where
   allocs : List Cell
   write : Option (Ref × Cell)
 
-/-- Is the atom `b` already a member of the "set" whose members are `rs`? -/
+/-- Is the atom `b` already a member of the set whose members are `rs`? -/
 def isPresent (h : Heap) (rs : List Ref) (b : Block) : Bool :=
   match b with
   | [.leaf v] => rs.any fun y => match h.get? y with
@@ -301,6 +361,19 @@ def dictSetEffect (h : Heap) (r : Nat) (path : Path) (k : String) (v : Block) : 
     | some (.dict kvs) =>
       let base := (h.arena (.run r)).length
       some ⟨Block.relocate v (.run r) base, some (x, .dict (kvSet kvs k ⟨.run r, base⟩))⟩
+    | _ => none
+
+/-- `d[k] = <formatted copy of the object y of region g>` for the dict `d` at `path`. -/
+def fmtBind (h : Heap) (r : Nat) (path : Path) (k : String) (g : Region) (y : Ref) (keep : List Nat) :
+    Option Effect :=
+  match resolve h (root r) path with
+  | none => none
+  | some x =>
+    match h.get? x with
+    | some (.dict kvs) =>
+      let base := (h.arena (.run r)).length
+      let kp := keep ++ objIdx h g
+      some ⟨fmtArena h kp g (.run r) base, some (x, .dict (kvSet kvs k (shiftKeep kp g (.run r) base y)))⟩
     | _ => none
 
 def effect (h : Heap) (r : Nat) : Op → Option Effect
@@ -342,7 +415,21 @@ def effect (h : Heap) (r : Nat) : Op → Option Effect
     | none => none
     | some x =>
       match h.get? x with
-      | some (.list rs) => if isPresent h rs v then some ⟨[], none⟩ else extendEffect h r path [v]
+      | some (.set rs) =>
+        if isPresent h rs v then some ⟨[], none⟩
+        else
+          let new := relocAll (.run r) (h.arena (.run r)).length [v]
+          some ⟨new.1, some (x, .set (rs ++ new.2))⟩
+      | _ => none
+  | .attrSetAt path k v =>
+    if v.isEmpty then none else
+    match resolve h (root r) path with
+    | none => none
+    | some x =>
+      match h.get? x with
+      | some (.obj cls attrs) =>
+        let base := (h.arena (.run r)).length
+        some ⟨Block.relocate v (.run r) base, some (x, .obj cls (kvSet attrs k ⟨.run r, base⟩))⟩
       | _ => none
   | .copyKey src dst =>
     match h.get? (root r) with
@@ -352,17 +439,24 @@ def effect (h : Heap) (r : Nat) : Op → Option Effect
       | none => none
     | _ => none
   | .fmtSetAt path k src keep =>
-    if src.reg.isShared then
-      match resolve h (root r) path with
-      | none => none
-      | some x =>
-        match h.get? x with
-        | some (.dict kvs) =>
-          let base := (h.arena (.run r)).length
-          some ⟨fmtArena h keep src.reg (.run r) base,
-                some (x, .dict (kvSet kvs k (shiftKeep keep src.reg (.run r) base src)))⟩
-        | _ => none
-    else none
+    if src.reg.isShared then fmtBind h r path k src.reg src keep else none
+  | .fmtFrom src sp path k byRef =>
+    if src = r then none else
+    match resolve h (root src) sp with
+    | none => none
+    | some y =>
+      if byRef then
+        match h.get? y, resolve h (root r) path with
+        | some c, some x =>
+          match h.get? x with
+          | some (.dict kvs) =>
+            match c with
+            | .leaf v => some ⟨[.leaf v], some (x, .dict (kvSet kvs k ⟨.run r, (h.arena (.run r)).length⟩))⟩
+            | _ => some ⟨[], some (x, .dict (kvSet kvs k y))⟩
+          | _ => none
+        | _, _ => none
+      else fmtBind h r path k (.run src) y []
+  | .fail => none
 
 def apply (h : Heap) (r : Nat) (e : Effect) : Heap :=
   let h1 := h.alloc (.run r) e.allocs
@@ -370,20 +464,31 @@ def apply (h : Heap) (r : Nat) (e : Effect) : Heap :=
   | none => h1
   | some (x, c) => h1.set x c
 
-/-- One operation of run `r`. -/
-def step (h : Heap) (r : Nat) (op : Op) : Heap :=
-  match effect h r op with
-  | none => h
-  | some e => apply h r e
+/-- The heap and the runs that are over because an operation of theirs raised. -/
+structure State where
+  heap : Heap
+  dead : Nat → Bool
+
+def State.init (h : Heap) : State := ⟨h, fun _ => false⟩
+
+def kill (dead : Nat → Bool) (r : Nat) : Nat → Bool := fun r' => decide (r' = r) || dead r'
+
+/-- One operation of run `r`: nothing if the run is over; an operation without effect RAISES and ends
+    the run (the heap stays as it is); otherwise the effect is applied. -/
+def step (st : State) (r : Nat) (op : Op) : State :=
+  if st.dead r then st else
+  match effect st.heap r op with
+  | none => ⟨st.heap, kill st.dead r⟩
+  | some e => ⟨apply st.heap r e, st.dead⟩
 
 /-- A schedule: the global order in which the operations of all runs are executed. Every
     interleaving of per-run operation sequences at operation granularity is such a list. -/
 abbrev Sched := List (Nat × Op)
 
-def exec (s : Sched) (h : Heap) : Heap :=
+def exec (s : Sched) (st : State) : State :=
   match s with
-  | [] => h
-  | e :: rest => exec rest (step h e.1 e.2)
+  | [] => st
+  | e :: rest => exec rest (step st e.1 e.2)
 
 /-- The operations of run `r` in a schedule, in order: run r's own program. -/
 def proj (r : Nat) (s : Sched) : Sched := s.filter fun e => e.1 = r
@@ -401,15 +506,21 @@ def Heap.init (defs : List Block) (cfg : Block) : Heap :=
     | .config => Block.relocate cfg .config 0
     | .run _ => []⟩
 
+/-- The process right after loading: nothing has run, nothing has failed. -/
+def State.loaded (defs : List Block) (cfg : Block) : State := State.init (Heap.init defs cfg)
+
 /-! ### objects that outlive a run: `pypyr.pipeline.Pipeline` -/
 
 /-- What a `pypyr.pipeline.Pipeline` object keeps from one call of `run(context)` to the next:
     `steps_runner`, a `StepsRunner`, which is bound to the `Context` it was constructed with
-    (`runner = some r`: bound to run r's context; `none`: never run).  `pipeline_definition` is
-    fetched from the loader cache again on every call and the other slots are constructor inputs,
-    which belong to the caller. -/
+    (`runner = some r`: bound to run r's context; `none`: never run), and `groups`: constructor
+    inputs – `Pipeline.new_pipe_and_args` stores `shortcut.get('groups')`, THE CONFIGURATION'S OWN LIST,
+    on the object (`held = some x`: a shared object held by reference; the runner only reads it; no
+    operation has a `Pipeline` object as its target).  `pipeline_definition` is fetched from the loader
+    cache again on every call. -/
 structure PipeObj where
   runner : Option Nat
+  held : Option Ref := none
   deriving DecidableEq, Repr, Inhabited
 
 /-- `Pipeline._run_pipeline(context)`: which `StepsRunner` executes the step groups of a call. -/
@@ -426,43 +537,52 @@ inductive RunnerRule where
     executed by the call's `StepsRunner` on the context THAT RUNNER is bound to; `(some r', op)` acts
     on the context of the nested run `r'` – a child pipeline that `pypyr.steps.pype` runs with a
     context of its own (`useParentContext: false`): that `Context`, its `Pipeline` object and its
-    runner are all made by the step while it runs. -/
-structure Call where
+    runner are all made by the step while it runs.  `α`: operations (`Call`) or instructions
+    (`KCall`). -/
+structure CallOf (α : Type) where
   obj : Nat
   run : Nat
-  pre : List Op
-  steps : List (Option Nat × Op)
+  pre : List α
+  steps : List (Option Nat × α)
   deriving Repr, Inhabited
 
+abbrev Call := CallOf Op
+
 /-- The operations of a call whose runner is bound to the context of run `target`. -/
-def Call.sched (c : Call) (target : Nat) : Sched :=
-  solo c.run c.pre ++ c.steps.map fun s => (s.1.getD target, s.2)
+def CallOf.sched {α : Type} (c : CallOf α) (target : Nat) : List (Nat × α) :=
+  (c.pre.map fun o => (c.run, o)) ++ c.steps.map fun s => (s.1.getD target, s.2)
 
 /-- The object after a call for run `r`, and the run whose context the call's steps act on. -/
 def PipeObj.call (rule : RunnerRule) (p : PipeObj) (r : Nat) : PipeObj × Nat :=
   match rule, p.runner with
   | .keepFirst, some r0 => (p, r0)
-  | _, _ => (⟨some r⟩, r)
+  | _, _ => ({ p with runner := some r }, r)
 
 /-- All `Pipeline` objects of the process, by number. -/
 abbrev Objs := Nat → PipeObj
 
-def Objs.fresh : Objs := fun _ => ⟨none⟩
+def Objs.fresh : Objs := fun _ => ⟨none, none⟩
 
 def Objs.put (objs : Objs) (o : Nat) (p : PipeObj) : Objs := fun o' => if o' = o then p else objs o'
 
 /-- The operations a history of calls (on the same or on different objects, in this order)
     performs. -/
-def callsSched (rule : RunnerRule) (objs : Objs) : List Call → Sched
+def callsSched {α : Type} (rule : RunnerRule) (objs : Objs) : List (CallOf α) → List (Nat × α)
   | [] => []
   | c :: rest =>
     let pt := (objs c.obj).call rule c.run
     c.sched pt.2 ++ callsSched rule (objs.put c.obj pt.1) rest
 
+/-- The objects after a history of calls. -/
+def callsObjs {α : Type} (rule : RunnerRule) (objs : Objs) : List (CallOf α) → Objs
+  | [] => objs
+  | c :: rest => callsObjs rule (objs.put c.obj ((objs c.obj).call rule c.run).1) rest
+
 /-! ### observations (driver, examples) -/
 
 /-- The tree value of the object at `x` (what `==` / a deep snapshot sees). `obj 0`: out of fuel
-    (cyclic), `obj 1`: dangling address. -/
+    (cyclic), `obj 1`: dangling address.  An opaque object shows as the mapping of its attributes
+    with its class under `__obj__`. -/
 def deepVal : Nat → Heap → Ref → Val
   | 0, _, _ => .obj 0
   | n + 1, h, x =>
@@ -470,7 +590,11 @@ def deepVal : Nat → Heap → Ref → Val
     | none => .obj 1
     | some (.leaf v) => v
     | some (.list rs) => .list (rs.map (deepVal n h))
+    | some (.tuple rs) => .tuple (rs.map (deepVal n h))
+    | some (.set rs) => .set (rs.map (deepVal n h))
     | some (.dict kvs) => .dict (kvs.map fun kv => (.str kv.1, deepVal n h kv.2))
+    | some (.obj cls attrs) =>
+      .dict ((.str "__obj__", .str cls) :: attrs.map fun kv => (.str kv.1, deepVal n h kv.2))
 
 /-- The addresses reachable from `todo` (fuel-bounded graph search). -/
 def reachFrom : Nat → Heap → List Ref → List Ref → List Ref
@@ -481,9 +605,294 @@ def reachFrom : Nat → Heap → List Ref → List Ref → List Ref
     else reachFrom n h ((match h.get? x with | some c => c.refs | none => []) ++ todo) (x :: seen)
 
 /-- Non-atom objects of other regions that run `r`'s context can reach: the model's prediction
-    of the `id()`-sharing between a context and the cached definitions / config. -/
+    of the `id()`-sharing between a context and the cached definitions / config / other contexts. -/
 def foreignReach (fuel : Nat) (h : Heap) (r : Nat) : List Ref :=
   (reachFrom fuel h [root r] []).reverse.filter fun x =>
     x.reg ≠ .run r && (match h.get? x with | some (.leaf _) => false | _ => true)
+
+/-! ### the object-level READING of steps
+
+  Which operations a step performs on objects is a function of the step's configuration AND of what
+  the context holds when the step starts: `pypyr.steps.append` extends the list in place if
+  `context.get(list)` is truthy and binds a new list otherwise, `Context.merge` walks the current value
+  and extends lists / recurses into mappings where both sides agree, `Step.save_error` appends to
+  `runErrors` if it is there.  `Instr` = one step-level unit of a run as the harness generates it (the
+  step kind + its configuration, values as `Val` trees); `opsOf` = its reading.  The heap is read
+  through `kindAt` only (what KIND of object sits at a path of the run's own context, how many members
+  it has, whether it is truthy): nothing else of the heap can influence which operations are done. -/
+
+/-- Python `str(key)` of a mapping key of a step's configuration (keys are strings in the domain). -/
+def keyStr : Val → String
+  | .str s => s
+  | _ => "\x00"
+
+mutual
+/-- The objects of a literal value, the value itself first, children after it (positions relative to
+    `base`): what formatting a brace-free literal allocates. -/
+def cellsOf (base : Nat) : Val → List BCell
+  | .list xs => let r := cellsOfList (base + 1) xs; .list r.2 :: r.1
+  | .tuple xs => let r := cellsOfList (base + 1) xs; .tuple r.2 :: r.1
+  | .set xs => let r := cellsOfList (base + 1) xs; .set r.2 :: r.1
+  | .dict kvs => let r := cellsOfPairs (base + 1) kvs; .dict r.2 :: r.1
+  | v => [.leaf v]
+def cellsOfList (base : Nat) : List Val → List BCell × List Nat
+  | [] => ([], [])
+  | x :: xs =>
+    let c := cellsOf base x
+    let r := cellsOfList (base + c.length) xs
+    (c ++ r.1, base :: r.2)
+def cellsOfPairs (base : Nat) : List (Val × Val) → List BCell × List (String × Nat)
+  | [] => ([], [])
+  | (k, v) :: rest =>
+    let c := cellsOf base v
+    let r := cellsOfPairs (base + c.length) rest
+    (c ++ r.1, (keyStr k, base) :: r.2)
+end
+
+def Block.ofVal (v : Val) : Block := cellsOf 0 v
+
+/-- What a step can learn about the object at a path by `isinstance`, `bool()` and `len()`. -/
+inductive Kind where
+  | leaf (truthy : Bool)
+  | list (n : Nat)
+  | tuple (n : Nat)
+  | set (n : Nat)
+  | dict (n : Nat)
+  | obj
+  deriving DecidableEq, Repr, Inhabited
+
+def Cell.kind : Cell → Kind
+  | .leaf v => .leaf v.truthy
+  | .list rs => .list rs.length
+  | .tuple rs => .tuple rs.length
+  | .set rs => .set rs.length
+  | .dict kvs => .dict kvs.length
+  | .obj _ _ => .obj
+
+def Kind.truthy : Kind → Bool
+  | .leaf t => t
+  | .list n | .tuple n | .set n | .dict n => n != 0
+  | .obj => true
+
+/-- The kind of the object at `path` of run r's context (`none`: no such path). -/
+def kindAt (h : Heap) (r : Nat) (path : Path) : Option Kind :=
+  match resolve h (root r) path with
+  | none => none
+  | some x => (h.get? x).map Cell.kind
+
+/-- The two operations `Context.merge` / `set_defaults` perform. -/
+inductive MOp where
+  | set (path : Path) (k : String) (v : Block)
+  | extend (path : Path) (vs : List Block)
+  deriving Repr, Inhabited
+
+def MOp.toOp : MOp → Op
+  | .set [] k v => .setKey k v
+  | .set path k v => .dictSetAt path k v
+  | .extend path vs => .extendAt path vs
+
+mutual
+/-- `Context.merge` → `merge_recurse(current, add_me)` with `current` = the mapping at `path`; `rd` reads
+    the context.  `none`: outside the modelled domain (tuple + tuple, set + set build a new object out of
+    the members of the old one). -/
+def mergeWalk (rd : Path → Option Kind) (path : Path) : List (Val × Val) → Option (List MOp)
+  | [] => some []
+  | (k, v) :: rest =>
+    match mergeOne rd path (keyStr k) v, mergeWalk rd path rest with
+    | some a, some b => some (a ++ b)
+    | _, _ => none
+def mergeOne (rd : Path → Option Kind) (path : Path) (k : String) : Val → Option (List MOp)
+  | .dict kvs =>
+    match rd (path ++ [.key k]) with
+    | some (.dict _) => mergeWalk rd (path ++ [.key k]) kvs
+    | _ => some [.set path k (cellsOf 0 (.dict kvs))]
+  | .list xs =>
+    match rd (path ++ [.key k]) with
+    | some (.list _) => some [.extend (path ++ [.key k]) (cellsOfEach xs)]
+    | _ => some [.set path k (cellsOf 0 (.list xs))]
+  | .tuple xs =>
+    match rd (path ++ [.key k]) with
+    | some (.tuple _) => none
+    | _ => some [.set path k (cellsOf 0 (.tuple xs))]
+  | .set xs =>
+    match rd (path ++ [.key k]) with
+    | some (.set _) => none
+    | _ => some [.set path k (cellsOf 0 (.set xs))]
+  | v => some [.set path k (cellsOf 0 v)]
+/-- one fresh value per member -/
+def cellsOfEach : List Val → List Block
+  | [] => []
+  | x :: xs => cellsOf 0 x :: cellsOfEach xs
+end
+
+mutual
+/-- `Context.set_defaults` → `defaults_recurse(current, defaults)`: a key that is there is left alone
+    (both mappings: recurse), a key that is not is bound. -/
+def defaultWalk (rd : Path → Option Kind) (path : Path) : List (Val × Val) → List MOp
+  | [] => []
+  | (k, v) :: rest => defaultOne rd path (keyStr k) v ++ defaultWalk rd path rest
+def defaultOne (rd : Path → Option Kind) (path : Path) (k : String) : Val → List MOp
+  | .dict kvs =>
+    match rd (path ++ [.key k]) with
+    | some (.dict _) => defaultWalk rd (path ++ [.key k]) kvs
+    | some _ => []
+    | none => [.set path k (cellsOf 0 (.dict kvs))]
+  | v =>
+    match rd (path ++ [.key k]) with
+    | some _ => []
+    | none => [.set path k (cellsOf 0 v)]
+end
+
+/-- The forms of `py` code the generator renders. -/
+inductive PyForm where
+  /-- `<path>.append(<w>)` -/
+  | append (path : Path) (w : Val)
+  /-- `<path>.extend(<ws>)` -/
+  | extend (path : Path) (ws : List Val)
+  /-- `<path>[k] = <w>` -/
+  | setItem (path : Path) (k : String) (w : Val)
+  /-- `<path>.add(<a>)` -/
+  | add (path : Path) (a : Val)
+  /-- `dst = src` + `save('dst')` -/
+  | alias (src dst : String)
+  /-- `raise …` inside a step whose failure is swallowed or retried: the failure itself changes no
+      object (its record is `Instr.saveError`; a failure that ends the run is `Instr.raise`) -/
+  | raise
+  deriving Repr, Inhabited
+
+def PyForm.ops : PyForm → List Op
+  | .append [] _ => [.fail]
+  | .append path w => [.appendAt path (Block.ofVal w)]
+  | .extend path ws => [.extendAt path (ws.map Block.ofVal)]
+  | .setItem [] k w => [.setKey k (Block.ofVal w)]
+  | .setItem path k w => [.dictSetAt path k (Block.ofVal w)]
+  | .add path a => [.addAt path (Block.ofVal a)]
+  | .alias src dst => [.copyKey src dst]
+  | .raise => []
+
+/-- One step-level unit of a run. -/
+inductive Instr where
+  /-- `Context(dict_in)` (the caller of a run; `pypyr.steps.pype` for a child with a context of its own,
+      from its brace-free `args`) -/
+  | ctxStart (v : Val)
+  /-- `Pipeline.new_pipe_and_args` for a shortcut with `args`: `copy.deepcopy(shortcut['args'])` updated
+      with the caller's `dict_in` -/
+  | shortcutArgs (src : Ref) (dictIn : List (String × Val))
+  /-- `pypyr.parser.list`: `{'argList': [args…]}` (a new list, `list(parser_args)`) -/
+  | parserList (args : List String)
+  /-- `Step.set_step_input_context`: one deep copy per `in` key (`src`: the definition object) -/
+  | enter (ins : List (String × Ref))
+  /-- `Step.unset_step_input_context` -/
+  | leave (keys : List String)
+  /-- `Step.foreach_loop`: `context['i'] = <formatted item>` (`src`: the item in the definition) -/
+  | foreachItem (src : Ref)
+  /-- `retryCounter` / `whileCounter` -/
+  | counter (name : String) (n : Nat)
+  /-- `pypyr.steps.append` with `list: K` (a key) -/
+  | append (K : String) (W : Val) (unpack : Bool)
+  /-- `pypyr.steps.add` with `set: K` (a key), an atom to add -/
+  | add (K : String) (a : Val)
+  /-- `pypyr.steps.set` (pops its own argument first) -/
+  | set (pairs : List (String × Val))
+  /-- `pypyr.steps.contextsetf`; `context.update(args)` of a pype into the parent context; the `out` keys
+      of a pype with a context of its own (values read from the child) -/
+  | setf (pairs : List (String × Val))
+  /-- `pypyr.steps.set` with `dst: '{src:ff}'` -/
+  | setff (dst src : String)
+  /-- `pypyr.steps.contextcopy` `{dst: src}` -/
+  | contextcopy (dst src : String)
+  /-- `pypyr.steps.default` -/
+  | default (v : Val)
+  /-- `pypyr.steps.contextmerge` -/
+  | merge (v : Val)
+  /-- `pypyr.steps.py` -/
+  | py (forms : List PyForm)
+  /-- `pypyr.steps.configvars` -/
+  | configvars
+  /-- `Step.save_error`: `context.setdefault('runErrors', []).append(failure)`, `failure['customError']` =
+      the formatted `onError` of the definition (`src`) or `{}` -/
+  | saveError (failure : Val) (onError : Option Ref)
+  /-- a failure that is not swallowed: the run ends -/
+  | raise
+  deriving Repr, Inhabited
+
+def bindAll (pairs : List (String × Val)) : List Op := pairs.map fun kv => .setKey kv.1 (Block.ofVal kv.2)
+
+/-- The reading, given a reader of the context. -/
+def opsOfK (rd : Path → Option Kind) : Instr → Option (List Op)
+  | .ctxStart v => some [.start (Block.ofVal v)]
+  | .shortcutArgs src dictIn => some (.start [.dict []] :: .shortcutArgsCopy src :: bindAll dictIn)
+  | .parserList args => some [.setKey "argList" (Block.ofVal (.list (args.map Val.str)))]
+  | .enter ins => some (ins.map fun kv => .inCopy kv.1 kv.2)
+  | .leave keys => some (keys.map .unsetIn)
+  | .foreachItem src => some [.fmtSetAt [] "i" src []]
+  | .counter name n => some [.setKey name [.leaf (.int n)]]
+  | .append K W unpack =>
+    let truthy := match rd [.key K] with | some k => k.truthy | none => false
+    match unpack, W with
+    | false, _ => some [if truthy then .appendAt [.key K] (Block.ofVal W) else .setKey K (Block.ofVal (.list [W]))]
+    | true, .list ws => some [if truthy then .extendAt [.key K] (ws.map Block.ofVal) else .setKey K (Block.ofVal (.list ws))]
+    | true, _ => none
+  | .add K a =>
+    let truthy := match rd [.key K] with | some k => k.truthy | none => false
+    some [if truthy then .addAt [.key K] (Block.ofVal a) else .setKey K (Block.ofVal (.set [a]))]
+  | .set pairs => some (.unsetIn "set" :: bindAll pairs)
+  | .setf pairs => some (bindAll pairs)
+  | .setff dst src => some [.unsetIn "set", .copyKey src dst]
+  | .contextcopy dst src => some [.copyKey src dst]
+  | .default (.dict kvs) => some ((defaultWalk rd [] kvs).map MOp.toOp)
+  | .default _ => none
+  | .merge (.dict kvs) => (mergeWalk rd [] kvs).map fun ms => ms.map MOp.toOp
+  | .merge _ => none
+  | .py forms => some (forms.flatMap PyForm.ops)
+  | .configvars => some [.configvarsCopy]
+  | .saveError failure onError =>
+    let (pre, n) : List Op × Nat := match rd [.key "runErrors"] with
+      | some (.list n) => ([], n)
+      | some _ => ([], 0)
+      | none => ([.setKey "runErrors" [.list []]], 0)
+    some (pre ++ [.appendAt [.key "runErrors"] (Block.ofVal failure),
+      match onError with
+      | some src => .fmtSetAt [.key "runErrors", .idx n] "customError" src []
+      | none => .dictSetAt [.key "runErrors", .idx n] "customError" [.dict []]])
+  | .raise => some [.fail]
+
+/-- The operations `instr` performs when run r executes it on heap `h`. -/
+def opsOf (h : Heap) (r : Nat) (i : Instr) : Option (List Op) := opsOfK (kindAt h r) i
+
+/-- One step-level unit of run `r`: read, then perform (a unit outside the modelled domain does
+    nothing; the driver rejects it). -/
+def stepK (st : State) (r : Nat) (i : Instr) : State :=
+  match opsOf st.heap r i with
+  | none => st
+  | some ops => exec (solo r ops) st
+
+/-- A schedule at STEP granularity. -/
+abbrev KSched := List (Nat × Instr)
+
+def execK (s : KSched) (st : State) : State :=
+  match s with
+  | [] => st
+  | e :: rest => execK rest (stepK st e.1 e.2)
+
+def projK (r : Nat) (s : KSched) : KSched := s.filter fun e => e.1 = r
+
+def soloK (r : Nat) (is : List Instr) : KSched := is.map fun i => (r, i)
+
+/-- What an observer of run `r` sees after a unit: the context's deep value and whether the run is over. -/
+def obsOf (n : Nat) (st : State) (r : Nat) : Val × Bool := (deepVal n st.heap (root r), st.dead r)
+
+/-- The step trace of run `r` executing `is` on its own. -/
+def traceK (n : Nat) (r : Nat) : List Instr → State → List (Val × Bool)
+  | [], _ => []
+  | i :: is, st => obsOf n (stepK st r i) r :: traceK n r is (stepK st r i)
+
+/-- The observations made in a schedule, after every unit, of the run that moved. -/
+def logK (n : Nat) : KSched → State → List (Nat × Val × Bool)
+  | [], _ => []
+  | e :: rest, st => (e.1, obsOf n (stepK st e.1 e.2) e.1) :: logK n rest (stepK st e.1 e.2)
+
+/-- Calls on `Pipeline` objects whose programs are step-level units. -/
+abbrev KCall := CallOf Instr
 
 end Pypyr.RunHeap
